@@ -2,6 +2,7 @@ SPECIFICATION Spec
 CONSTANTS Nodes <- MCNodes
           AddrOf <- MCAddrOf
           AmRelay <- MCAmRelay
+          MaxRecs = 2
 INVARIANTS OnlyRelaysForward RecordsOnLiveTunnels NotToSelf IndexesUnique
 CONSTRAINT Bound
 CHECK_DEADLOCK FALSE
